@@ -1,4 +1,6 @@
 SPECIFICATION Spec
-CONSTANT MaxStr = 2
+CONSTANTS
+  MaxStr = 2
+  Deep = FALSE
 INVARIANTS RefRoundTrip OrderMatters TypeMatters LeafMatters Eq11Refl EncoderAudit ReaderAudit
 CHECK_DEADLOCK FALSE
